@@ -1,6 +1,6 @@
 (* C05 - Only the seat on turn can play, only a card it holds; cards are conserved.
    Only statements, each closed by [exact]; proofs are in the files imported below. *)
-From BE Require Import Model.Play Spec.PlayLaws Proofs.Play.
+From BE Require Import Model.Play Spec.PlayLaws Gen.PlayFns Proofs.Play Proofs.PlayGen Proofs.PlayGenCor.
 Local Open Scope nat_scope.
 
 Theorem C05_accept_iff :
@@ -46,6 +46,65 @@ Theorem C05_empty_at_52 :
   forall p, hands (runh s0 ops) p = [].
 Proof. exact empty_at_52. Qed.
 Print Assumptions C05_empty_at_52.
+
+(* PlayingPhaseWithHands.play_card_by_player regenerated from playing_phase.py on every run *)
+Theorem C05_generated_play_by :
+  forall s c p,
+  play_card_raises (hbase s) c = false -> g_play_by s c p = play_by s c p.
+Proof. exact g_play_by_spec. Qed.
+Print Assumptions C05_generated_play_by.
+
+Theorem C05_generated_play_by_raise_branch :
+  forall s c p,
+  play_card_raises (hbase s) c = true ->
+  g_play_by s c p =
+  if negb (seat_beq p (pactive (hbase s))) then (s, PRaises)
+  else if negb (has_card (hands s p) c) then (s, PRaises)
+  else (mkH (fst (g_play_card (hbase s) c)) (fun q => if seat_beq q p then remove_card (hands s q) c else hands s q),
+        PRaises).
+Proof. exact g_play_by_raises. Qed.
+Print Assumptions C05_generated_play_by_raise_branch.
+
+Theorem C05_generated_turn_check :
+  forall s p,
+  g_check_active_player s p = if negb (seat_beq p (pactive s)) then PRaises else POk.
+Proof. exact g_check_active_player_eq. Qed.
+Print Assumptions C05_generated_turn_check.
+
+Theorem C05_generated_card_check :
+  forall p h c, g_check_has_card p h c = if negb (has_card h c) then PRaises else POk.
+Proof. exact g_check_has_card_eq. Qed.
+Print Assumptions C05_generated_card_check.
+
+Theorem C05_generated_run_is_hand_model :
+  forall k deal s0 ops, g_init_hands k deal = Some s0 -> g_runh s0 ops = runh s0 ops.
+Proof. exact g_runh_eq. Qed.
+Print Assumptions C05_generated_run_is_hand_model.
+
+(* the property, for the regenerated functions, on every reachable state *)
+Theorem C05_accept_iff_generated :
+  forall k deal s0 ops c p, g_init_hands k deal = Some s0 ->
+  let s := g_runh s0 ops in
+  snd (g_play_by s c p) = POk <-> (p = pactive (hbase s) /\ In c (hands s p)).
+Proof. exact g_accept_iff. Qed.
+Print Assumptions C05_accept_iff_generated.
+
+Theorem C05_refused_is_noop_generated :
+  forall k deal s0 ops c p, g_init_hands k deal = Some s0 ->
+  let s := g_runh s0 ops in snd (g_play_by s c p) = PRaises -> fst (g_play_by s c p) = s.
+Proof. exact g_refused_is_noop. Qed.
+Print Assumptions C05_refused_is_noop_generated.
+
+Theorem C05_partition_generated :
+  forall k deal s0 ops, g_init_hands k deal = Some s0 -> disjoint_deal deal ->
+  let s := g_runh s0 ops in let acc := accepted_ops s0 ops in
+  (forall p c, In c (deal p) <-> (In c (hands s p) \/ In (c, p) acc)) /\
+  (forall p c, In c (hands s p) -> ~ In (c, p) acc) /\
+  disjoint_deal (hands s) /\
+  NoDup (map fst acc) /\
+  map fst acc = concat (map snd (tricks (hbase s))) ++ trick (hbase s).
+Proof. exact g_partition. Qed.
+Print Assumptions C05_partition_generated.
 
 (* non-vacuity *)
 Theorem C05_example_refusals :
